@@ -62,11 +62,7 @@ let check inp obs =
     let accepted = (obs = "ok") in
     let prop = (accepted = z) in
     let finding = if (not prop) && zip215_guard pk sg then "ed25519-not-zip215" else "-" in
-    let shape =
-      if hexlen pkh <> 32 || hexlen sigh <> 64 then "ed-bad-length"
-      else if (match pt_decode pk with None -> true | Some _ -> false) then "ed-A-undecodable"
-      else if (match pt_decode (List.filteri (fun i _ -> i < 32) sg) with None -> true | Some _ -> false) then "ed-R-undecodable"
-      else "ed-wellformed" in
+    let shape = if hexlen pkh <> 32 || hexlen sigh <> 64 then "ed-bad-length" else "ed-length-ok" in
     { prop_ok = prop; model_eq = (model = obs); nontrivial = true; finding;
       tags = "ed," ^ shape ^ ",ed-go-" ^ model ^ (if z then ",ed-zip215-accept" else ",ed-zip215-reject")
              ^ (if (g = VOk) <> z then ",ed-go-differs-from-zip215" else "");
